@@ -191,4 +191,10 @@ def replay(case):
     return verdicts
 
 
-from vf.known_regions import REGIONS  # noqa: E402
+def _attribute_parameter_with_default(case):
+    import re
+
+    return bool(re.search(r":\s*(float|int|bool)\s*=", case.get("source", "")))
+
+
+REGIONS = {"attribute_parameter_with_default_in_model_proto": _attribute_parameter_with_default}
